@@ -381,6 +381,7 @@ Section Light.
     - rewrite Hcm, Hob. apply HI.
     - rewrite Hcm, Hob. apply HI.
     - rewrite Hob. apply HI.
+    - rewrite Hob. apply HI.
     - rewrite Hidx. apply HI.
     - rewrite Hreg. apply HI.
     - rewrite Hreg, Hcu. apply HI.
@@ -408,6 +409,7 @@ Section Heavy.
   Hypothesis Hrd : forall u ch' o', round_for (t_pc k) u ch' o' -> ch' = ch.
   Hypothesis Ho1 : members (objs g' o) = del n (members (objs (cg s) o)).
   Hypothesis Ho2 : forall o', o' <> o -> objs g' o' = objs (cg s) o'.
+  Hypothesis Htg : targets (objs g' o) = filter (allowed (racl (objs g' o))) (members (objs g' o)).
   Hypothesis Hcm : forall c, cmap g' c = if um then upd (cmap (cg s)) ch None c else cmap (cg s) c.
   Hypothesis Hidx : forall u, idx g' u = upd (idx (cg s)) n (del ch (idx (cg s) n)) u.
   Hypothesis Hreg : reg g' = reg (cg s).
@@ -528,6 +530,9 @@ Section Heavy.
       intros o'. destruct (N.eq_dec o' o) as [->|Hne].
       + rewrite Ho1. apply NoDup_del, (i_nodup_members s HI).
       + rewrite Ho2 by auto. apply (i_nodup_members s HI).
+    - (* i_targets *)
+      intros o'. destruct (N.eq_dec o' o) as [->|Hne]; auto.
+      rewrite Ho2 by auto. apply (i_targets s HI).
     - (* i_nodup_idx *)
       intros u. rewrite Hidx. destruct (N.eq_dec u n) as [->|Hne].
       + rewrite upd_same. apply NoDup_del, (i_nodup_idx s HI).
@@ -674,6 +679,7 @@ Proof.
     apply heavy_inv with (ch := ch) (o := o) (n := n) (um := true) (x := None); auto; simpl_g.
     + now rewrite upd_same.
     + intros o' Hne. now rewrite upd_other.
+    + now rewrite upd_same.
     + intros _. now rewrite upd_same.
     + discriminate.
   - apply isnil_false in Enil.
@@ -688,6 +694,7 @@ Proof.
         apply heavy_inv with (ch := ch) (o := o) (n := n) (um := false) (x := Some t); auto; simpl_g.
         -- now rewrite upd_same.
         -- intros o' Hne. now rewrite !upd_other.
+        -- now rewrite upd_same.
         -- discriminate.
         -- intros _. rewrite upd_same. exists pick. split; auto.
         -- right. repeat split; eauto.
@@ -695,6 +702,7 @@ Proof.
         apply heavy_inv with (ch := ch) (o := o) (n := n) (um := false) (x := None); auto; simpl_g.
         -- now rewrite upd_same.
         -- intros o' Hne. now rewrite !upd_other.
+        -- now rewrite upd_same.
         -- discriminate.
         -- intros _. rewrite upd_same. exists pick. split; auto.
     + (* the owner stays *)
@@ -702,6 +710,7 @@ Proof.
       apply heavy_inv with (ch := ch) (o := o) (n := n) (um := false) (x := None); auto; simpl_g.
       * now rewrite upd_same.
       * intros o' Hne. now rewrite upd_other.
+      * now rewrite upd_same.
       * discriminate.
       * intros _. rewrite upd_same. destruct (i_owner s HI ch o Hch) as (w & Hw & Hin).
         fold b in Hw, Hin. exists w. unfold obj_remove. cbn [owner members]. rewrite Eown.
@@ -805,9 +814,9 @@ Theorem seg_leave_preserves cf s t k ok hint :
 Proof.
   intros _ HI Hl Hpc. apply tlookup_In in Hl. rename Hl into Hk.
   pose proof (i_tasks s HI _ _ Hk) as Hok.
-  destruct (t_pc k) as [r| | | ch o ob id | ch o n w id | ch o ok1 id | | | |] eqn:Epc; try contradiction.
+  destruct (t_pc k) as [r| | | ch o ob id | ch o n w id | ch o ok1 id | | | | | |] eqn:Epc; try contradiction.
   - (* PStart (RLeave ..) *)
-    destruct r as [| ch ob id | | |]; try contradiction.
+    destruct r as [| ch ob id | | | | |]; try contradiction.
     cbn [seg]. unfold leave_start. destruct (cmap (cg s) ch) as [o|] eqn:Ec.
     + destruct (lock_free (cg s) o) eqn:Elf.
       * apply locked_inv; auto. left. auto.
